@@ -1975,22 +1975,20 @@ namespace
             std::vector<sqf::runtime::frame> stacktrace_frames(runtime.context_active().frames_rbegin(), runtime.context_active().frames_rend());
             sqf::runtime::diagnostics::stacktrace stacktrace(stacktrace_frames);
             stacktrace.value = right;
-            auto valpos = runtime.context_active().values_size();
-            runtime.context_active().push_value(stacktrace);
-            if (res->recover_runtime_error(runtime) == frame::result::error)
-            {
-                if (valpos > 0)
-                {
-                    runtime.context_active().pop_value();
-                }
-                runtime.__logmsg(err::ErrorMessage(runtime.context_active().current_frame().diag_info_from_position(), "THROW", right.data()->to_string_sqf()));
-                return {};
-            }
-
+            // Leave the scopes between here and the handler first, removing the values they produced,
+            // so that nothing of them leaks into the operands of the handler's callers
             auto drop = res - runtime.context_active().frames_rbegin();
             while (drop-- != 0)
             {
+                runtime.context_active().clear_values();
                 runtime.context_active().pop_frame();
+            }
+            runtime.context_active().push_value(stacktrace);
+            if (runtime.context_active().current_frame().recover_runtime_error(runtime) == frame::result::error)
+            {
+                runtime.context_active().pop_value();
+                runtime.__logmsg(err::ErrorMessage(runtime.context_active().current_frame().diag_info_from_position(), "THROW", right.data()->to_string_sqf()));
+                return {};
             }
         }
         return {};
